@@ -155,6 +155,10 @@ func (obfuscator Obfuscator) obfuscateJSON(
 	return obfuscatedJSON, nil
 }
 
+// bodyJSONPathPrefixes are the JSONPath roots under which a body exclusion can be
+// given (e.g. `$.request.body.user.name`); the rest uses the cursor notation.
+var bodyJSONPathPrefixes = []string{"$.request.body", "$.response.body"}
+
 // isCursorInExcludedPath checks if the given path segment should be excluded from obfuscation
 // usage only slices.Contains(excludedPaths, cursor) cannot work for JSONPath exclusions,
 // since it compares the whole string and works only for simple strings exclusions
@@ -164,13 +168,15 @@ func isCursorInExcludedPath(cursor string, excludedPaths []string) bool {
 		return true
 	}
 
-	// json path support
-	if cursor == "" {
-		return false
-	}
+	// json path support: what follows the body prefix must match the whole cursor.
+	// (Matching any suffix of the exclusion would also exclude fields with the
+	// same name elsewhere in the document.)
 	for _, path := range excludedPaths {
-		if strings.HasSuffix(path, cursor) {
-			return true
+		for _, prefix := range bodyJSONPathPrefixes {
+			bodyPath, found := strings.CutPrefix(path, prefix)
+			if found && bodyPath == cursor {
+				return true
+			}
 		}
 	}
 	return false
